@@ -173,6 +173,8 @@ func runC05(p *Program, r *Report) {
 	if nErr == 0 || nOK == 0 {
 		r.Undec("C05.R1", cn, p.Pos(et.Pos()), fmt.Sprintf("expected error and success paths, found %d/%d", nErr, nOK))
 	}
+	// a template that ends in a non-text context must be known as such to later (direct) executions
+	checkMemoOutput(p, r, "C05.R6")
 	// ---- R2 gates ----------------------------------------------------------------------
 	gates := []*ssa.Function{p.Func("template", "(*Template).escape"), p.Func("template", "(*Template).lookupAndEscapeTemplate")}
 	for _, g := range gates {
